@@ -217,6 +217,16 @@ PROPS = {
         "technique": "Lean 4 theorem (balanced lock skeletons => nothing held at the await) + manual polling of real futures compared with the model per operation + monitors",
         "design_ref": "DESIGN.md §7 C20", "assumptions": ["the async runtime polls the future only through its public poll interface"],
     },
+    "C18": {
+        "lean_modules": ["Cachelito.Props.C18"],
+        "streams": [sched_stream(nontrivial=["nested-acquisition", "concurrent-call"])],
+        "monitors": ["C18"],
+        "rule": "scheduled runs of 2-3 real threads (calls overflowing a hot cache, group and conditional invalidations) followed by quiescent dumps and a 5-call sequential probe; non-trivial = a run with nested acquisitions or concurrent calls; distinct by (schedule, event trace)",
+        "level_text": "Lean theorems over a data-carrying interleaving model (one atomic micro-step per critical section, any number of threads, programs and schedules): every call returns f(k) for its own key; ASYNC: the store/queue invariant, the entry limit and the memory bound hold after EVERY micro-step; SYNC (store write precedes the queue push): at every point stored keys missing from the queue belong to in-flight stores and |store| <= limit + |in flight|; at quiescence every stored key is queued (evictable, expirable, invalidatable), the queue is duplicate-free, |store| <= limit under every policy and total memory <= max_memory; sequential use after quiescence keeps the bounds and correct values under the weaker invariant (orphan queue keys allowed); a one-thread system is exactly Cachelito.run. The pre-fix clear (F6) and async expired lookup (F8) are refuted with concrete schedules. Tied to the code by the scheduled runs: values per call, quiescent dumps checked directly, probe history vs the model from the dumped state, lock traces vs skeletons.",
+        "level_note": MODEL_NOTE + " The schedule replay of the data model (creplay) against recorded real schedules is not wired yet: the tie for the interleaving model is the agreement at quiescence plus the per-operation lock skeletons. DashMap operations are atomic in the model; sync insert_with_memory's queue section is one micro-step.",
+        "technique": "Lean 4 theorem (invariants over all interleavings of atomic critical sections) + deterministic schedule exploration of real threads with quiescent-state and probe comparison",
+        "design_ref": "DESIGN.md §7 C18", "assumptions": ["DashMap operations are linearizable"],
+    },
     "C15": {
         "lean_modules": ["Cachelito.Props.C15", "Cachelito.Props.C15b"],
         "streams": [core_stream(nontrivial=["hit", "expiry"]), macro_stream(nontrivial=["stats-get", "stats-reset", "hit"])],
